@@ -1,7 +1,7 @@
 """C39 — sftpsim (DESIGN §4 C39)."""
 from engines import sftpsim
 PROPERTY = "C39"
-ENGINE = "sftpsim"
+ENGINE = "sftpsim (consumer class) + sftpsim/handle over gridsim"
 LEVEL = "exploration"
 COUNTS = {"quick": 12000, "thorough": 300000}
 CHUNK = 200
@@ -13,9 +13,24 @@ RULE = ("seeded histories of up to 20 client operations (overwrite at offsets be
         "only when no overwrite is pending, as the class contract requires; non-trivial = >=2 probe kinds; distinct = probe-count fingerprint")
 TECHNIQUE = "deterministic simulation: seeded interleavings of client operations and download delivery vs byte-array reference model"
 LEVEL_TEXT = "seeded search over interleavings and chunkings; sampling, not enumeration"
-LEVEL_NOTE = "real: sftpd.OverwriteableFileConsumer, EncryptedTemporaryFile; stub: the download producer (harness delivers the original bytes), reactor. GeneralSFTPFile over a grid is not driven"
-REAL = ["allmydata.frontends.sftpd.OverwriteableFileConsumer", "allmydata.frontends.sftpd.EncryptedTemporaryFile"]
+LEVEL_NOTE = ("5 of 6 runs — real: sftpd.OverwriteableFileConsumer, EncryptedTemporaryFile; stub: the download producer (harness delivers the original bytes), reactor. "
+              "1 of 6 runs (profile 'handle') — real: sftpd.GeneralSFTPFile opened read+write on an existing CHK/SDMF/MDMF file of a real client on a simulated grid: the "
+              "background download is the real downloader/Retrieve, client writeChunk/setAttrs/readChunk arrive at drawn simulated instants, close() commits through the "
+              "real dirnode/mutable node and the committed file is read back by a fresh client; the SSH transport (twisted.conch) is not driven")
+REAL = ["allmydata.frontends.sftpd.OverwriteableFileConsumer", "allmydata.frontends.sftpd.EncryptedTemporaryFile", "allmydata.frontends.sftpd.GeneralSFTPFile (handle profile)", "client/uploader/downloader/mutable/dirnode (handle profile)"]
 STUB = ["download producer (harness)", "reactor"]
-ASSUMPTIONS = ["the caller issues no overwrite while a read is outstanding (documented contract of the class)"]
-generate = sftpsim.gen_sftp
-execute = sftpsim.exec_sftp
+ASSUMPTIONS = ["the caller issues no overwrite or truncation while a read is outstanding (documented contract of the class); several reads may be outstanding together"]
+
+
+def generate(seed, tier):
+    # one run in six drives the whole file handle (GeneralSFTPFile) over a simulated grid; the others drive the
+    # consumer class directly (much cheaper, far more interleavings)
+    if seed % 6 == 5:
+        return sftpsim.gen_handle(seed, tier)
+    return sftpsim.gen_sftp(seed, tier)
+
+
+def execute(case):
+    if case.get("profile") == "handle":
+        return sftpsim.exec_handle(case)
+    return sftpsim.exec_sftp(case)
